@@ -3,6 +3,7 @@
   line in, one observation line out.  Total: an unknown or ill-typed line yields `bad-op`.
 -/
 import EnvVerif.Model.Expr
+import EnvVerif.Model.Recipient
 import EnvVerif.Model.Conc
 import EnvVerif.Model.Sha256
 namespace EnvVerif
@@ -191,9 +192,74 @@ def buildExpression (f : Ident) (ps : List (Ident × Env)) : Res Expression :=
 def tableSig (facts : List String) : SigScheme where
   verify key sig msg := facts.contains ("sig " ++ toString key ++ " " ++ hexOfBytes sig.enc ++ " " ++ dhex msg)
 
+/-- the idealised KEM of a scenario.  The harness opens every sealed message of the scenario
+with every private key of the scenario on the real library and states the outcomes as facts:
+`kem <key> <sealed-hex> <plaintext-hex>` (this key opens this message to this plaintext; no
+fact = it does not), `kemscheme key <key> <n>` and `kemscheme sealed <sealed-hex> <n>` (the
+encapsulation schemes). -/
+def tableKem (facts : List String) : Kem where
+  unsealMsg key s := facts.findSome? fun f =>
+    match f.splitOn " " with
+    | ["kem", k, sh, ph] => if k == toString key && sh == hexOfBytes s.enc then bytesOfHex ph else Option.none
+    | _ => Option.none
+  schemeOfSealed s := (facts.findSome? fun f =>
+    match f.splitOn " " with
+    | ["kemscheme", "sealed", sh, n] => if sh == hexOfBytes s.enc then n.toNat? else Option.none
+    | _ => Option.none).getD 0
+  schemeOfKey k := (facts.findSome? fun f =>
+    match f.splitOn " " with
+    | ["kemscheme", "key", kk, n] => if kk == toString k then n.toNat? else Option.none
+    | _ => Option.none).getD 0
+
+/-- the idealised SSKR of a scenario: `sskr combine <share-hex>,<share-hex>,.. <secret-hex|none>`
+(what `sskr_combine` returns for exactly this list of shares, in this order) and
+`sskr id <share-hex> <identifier>` -/
+def tableSskr (facts : List String) : Sskr where
+  combine shares :=
+    let key := ",".intercalate (shares.map fun s => hexOfBytes s.enc)
+    facts.findSome? fun f =>
+      match f.splitOn " " with
+      | ["sskr", "combine", k, sec] => if k == key then (if sec == "none" then Option.none else bytesOfHex sec) else Option.none
+      | _ => Option.none
+  identifier s := (facts.findSome? fun f =>
+    match f.splitOn " " with
+    | ["sskr", "id", sh, n] => if sh == hexOfBytes s.enc then n.toNat? else Option.none
+    | _ => Option.none).getD 0
+
+/-- the CBOR items held by leaf registers -/
+def leafCbors (r : Regs) (ks : String) : Option (List Cbor) := do
+  let es ← envs r ks
+  es.mapM fun e => match e with | .leaf c _ => some c | _ => Option.none
+
 def evalAssign (facts : List String) (r : Regs) (args : List String) : Option Val :=
-  let _ := facts
   match args with
+  | ["add_recipient", e, sealedMsg] => do
+    let e ← r.env e; let cs ← leafCbors r sealedMsg
+    match cs with
+    | [c] => pure (.ofRes (addRecipient H e c))
+    | _ => Option.none
+  | ["enc_to_recipients", e, ck, n, sealeds] => do
+    let e ← r.env e; let ck ← bytesOfHex ck; let n ← bytesOfHex n; let cs ← leafCbors r sealeds
+    pure (.ofRes (encryptSubjectToRecipients H AE ck n cs e))
+  | ["encrypt_to_recipient", e, ck, n, sealedMsg] => do
+    let e ← r.env e; let ck ← bytesOfHex ck; let n ← bytesOfHex n; let cs ← leafCbors r sealedMsg
+    match cs with
+    | [c] => pure (.ofRes (encryptToRecipient H AE ck n c e))
+    | _ => Option.none
+  | ["decrypt_subject_to_recipient", e, kid] => do
+    let e ← r.env e; let k ← kid.toNat?
+    pure (.ofRes (decryptSubjectToRecipient H AE (tableKem facts) k e))
+  | ["decrypt_to_recipient", e, kid] => do
+    let e ← r.env e; let k ← kid.toNat?
+    pure (.ofRes (decryptToRecipient H AE (tableKem facts) k e))
+  | ["add_sskr_share", e, share] => do
+    let e ← r.env e; let cs ← leafCbors r share
+    match cs with
+    | [c] => pure (.ofRes (addSskrShare H e c))
+    | _ => Option.none
+  | ["sskr_join", es] => do
+    let es ← envs r es
+    pure (.ofRes (sskrJoin H AE (tableSskr facts) es))
   | ["leaf", hx] =>
     match bytesOfHex hx with
     | some b => (match Cbor.dec b with
@@ -446,6 +512,12 @@ def evalObs (facts : List String) (r : Regs) (args : List String) : Option Strin
     let e ← r.env e
     pure (match Event.parse H e with
       | .ok q => "ok id=" ++ hexOfBytes q.id ++ " content=" ++ hexOfBytes q.content ++ " note=" ++ hexOfBytes q.note ++ " date=" ++ (match q.date with | some d => toString d | Option.none => "-")
+      | .err x => "err " ++ x
+      | .panic x => "panic " ++ x)
+  | ["recipients", e] => do
+    let e ← r.env e
+    pure (match recipients H e with
+      | .ok l => "[" ++ " ".intercalate (l.map fun c => hexOfBytes c.enc) ++ "]"
       | .err x => "err " ++ x
       | .panic x => "panic " ++ x)
   | ["has_sig", e, kid] => do
